@@ -7,6 +7,7 @@
 package main
 
 import (
+	"syscall"
 	"reflect"
 	"fmt"
 	"os"
@@ -75,6 +76,13 @@ func (w *world) reset() {
 	_ = os.WriteFile(filepath.Join(top, "sub", "x.json"), decoy, 0o644)
 	_ = os.MkdirAll(filepath.Join(top, "dir.yaml"), 0o755)
 	_ = os.WriteFile(filepath.Join(top, "dir.yaml", "x.json"), decoy, 0o644)
+	// entries that are not regular files and whose names sort before every Spec file: a FIFO and a
+	// socket without a Spec extension (to be ignored like any other non-Spec name), in every
+	// directory; a walk that gives up or skips the rest of the directory at one of them shows
+	for _, d := range w.dirs {
+		_ = syscall.Mkfifo(filepath.Join(w.root, d, "+early-fifo"), 0o644)
+		_ = syscall.Mknod(filepath.Join(w.root, d, "+early-socket"), syscall.S_IFSOCK|0o644, 0)
+	}
 }
 
 func (w *world) newCache(list []string) *cdi.Cache {
